@@ -9,7 +9,7 @@ file verif_tls12.go = patches/hook-tls12.diff, which lets the server side renego
 
 Findings carry the property they concern as a prefix of their signature: C10 C11 C12 C13 C14 C19 C33, or X12 for
 state-machine / renegotiation rules that no listed property names."""
-import collections, concurrent.futures as cf, json, random, re
+import collections, concurrent.futures as cf, json, os, random, re
 import vlib
 
 PROG = "tls12"
@@ -55,7 +55,8 @@ def sample(scns, n, rnd):
         return list(scns)
     by = collections.defaultdict(list)
     for s in scns:
-        by[(s["shape"], tuple(sorted(s["devs"])), s["ccert"] != "")].append(s)
+        by[(s["shape"], tuple(sorted(s["devs"])), s["ccert"] != "", s["conns"][0]["hs"][0]["srv"]["ver"],
+            bool(s["conns"][0]["variant"]) and s["shape"] == "resume")].append(s)
     out, rest = [], []
     for key in sorted(by):
         g = by[key]
@@ -236,7 +237,9 @@ def run(ctx):
         names = [i for i in QUICK_IDS if i in ids] + others[:2]
         rows = [{"id": i, "variant": [], "reneg": ""} for i in names] + [{"id": i, "variant": v, "reneg": r} for i, v, r in VARIANTS]
     else:
-        rows = [{"id": i, "variant": [], "reneg": ""} for i in ids] + [{"id": i, "variant": v, "reneg": r} for i, v, r in VARIANTS + MORE_VARIANTS]
+        lim = int(os.environ.get("VERIF_X12_LIMIT_IDS", "0"))       # development aid: a thorough run over the first n parrots only
+        some = [i for i in ids if i in QUICK_IDS] + [i for i in ids if i not in QUICK_IDS]
+        rows = [{"id": i, "variant": [], "reneg": ""} for i in (some[:lim] if lim else ids)] + [{"id": i, "variant": v, "reneg": r} for i, v, r in VARIANTS + MORE_VARIANTS]
     rows = [r for r in rows if r["id"] in ids]
     offers = ctx.drv("offers", {"ids": rows}, prog=PROG)
     bad = [o for o in offers if not o["ok"]]
